@@ -127,6 +127,9 @@ var (
 			if err != nil {
 				return nil, err
 			}
+			if rnum == 0 {
+				return nil, errorRequest("division by zero")
+			}
 			return valueNode(nil, "remainder", Numeric, float64(lnum%rnum)), nil
 		},
 		"<<": func(left *Node, right *Node) (result *Node, err error) {
@@ -521,6 +524,9 @@ var (
 			num, err := node.getInteger()
 			if err != nil {
 				return nil, err
+			}
+			if num <= 0 {
+				return nil, errorRequest("randint argument must be positive")
 			}
 			return valueNode(nil, "RandInt", Numeric, float64(randIntFunc(num))), nil
 		},
